@@ -532,7 +532,36 @@ func ruleXZReaderChecks(c *Ctx, r *Report, prefix string) {
 	}
 	if fn := c.Func("", "readFilter"); fn != nil {
 		o := newOb(c, r, rule, fn)
-		o.rel("V21-filter-id", roleExtract(roleCallTo(readUvarint), 0), roleConst(0x21), token.NEQ, "filter id != 0x21 (LZMA2)")
+		// the id test: `id != 0x21`, or membership in a frozen table whose only key is 0x21
+		tableID := false
+		for _, gb := range theCtx.GB(fn) {
+			giff, isIf := gb.Instrs[len(gb.Instrs)-1].(*ssa.If)
+			if !isIf {
+				continue
+			}
+			g := &guard{iff: giff}
+			ex, isEx := g.iff.Cond.(*ssa.Extract)
+			if !isEx || ex.Index != 1 {
+				continue
+			}
+			m, lk, okM := frozenMapOf(ex.Tuple)
+			if !okM || !lk.CommaOk || len(m.entries) != 1 || !roleExtract(roleCallTo(readUvarint), 0)(lk.Index) {
+				continue
+			}
+			if _, has := m.entries["33"]; !has {
+				continue
+			}
+			if ok, why, trace := consequence(c, fn, g.iff, false); ok {
+				o.r.Pass(rule, o.key("V21-filter-id"), c.InstrPos(g.iff), "filter id not in the table {0x21} => error on every path from the failing edge", 1)
+				tableID = true
+			} else {
+				o.r.Fail(rule, o.key("V21-filter-id"), c.InstrPos(g.iff), "filter id != 0x21 (LZMA2): the table lookup is present but "+why, trace...)
+				tableID = true
+			}
+		}
+		if !tableID {
+			o.rel("V21-filter-id", roleExtract(roleCallTo(readUvarint), 0), roleConst(0x21), token.NEQ, "filter id != 0x21 (LZMA2)")
+		}
 		o.mustCheck("V21-filter-props", func(call *ssa.Call) bool {
 			return call.Call.IsInvoke() && call.Call.Method.Name() == "UnmarshalBinary"
 		}, "filter properties validated by the filter's UnmarshalBinary")
